@@ -29,7 +29,8 @@ RULE = ("histories (Hypothesis RuleBasedStateMachine, <= 20 / 40 steps) over doc
         "or rejected part-way (bad time code on a later line, 40-character row, one-frame cue), "
         "documents cut off at any character (also inside a tag), corpus documents with one digit "
         "changed. A second read rule picks a reader object that exists already and lets it read "
-        "any document of its format. ")
+        "any document of its format. "
+        ' SCC family: pop-on, roll-up and CR-only segments; a rule lets one SCCReader read two SCC documents in a row with any read() option.')
 ASSUMPTIONS = [
     "an exception type counts as the outcome of a read",
     "documents no reader accepts are part of the domain (they must be rejected the same way "
@@ -139,7 +140,18 @@ def doc_strategy():
         # small pop-on documents: well-formed, or rejected part-way (a time code that lost a
         # digit on a later line, a row of 40 characters, a cue shown for one frame)
         from ..ref import cea608 as R608
-        kind = draw(st.sampled_from(["ok", "ok", "badtime", "long", "flash"]))
+        kind = draw(st.sampled_from(["ok", "ok", "badtime", "long", "flash", "rollup", "cr-only", "cr-only"]))
+        if kind in ("rollup", "cr-only"):
+            # roll-up rows: with their RUx command, or a segment cut out of such a stream (rows
+            # flushed by carriage returns only)
+            ru = draw(st.sampled_from(["9425", "9426", "94a7"]))
+            rows = draw(st.lists(st.sampled_from(["HELLO", "WORLD", "THIRD ROW", "abc"]), min_size=2, max_size=4))
+            out = ["Scenarist_SCC V1.0", ""]
+            for k, txt in enumerate(rows):
+                w = ([ru, ru] if kind == "rollup" and k == 0 else []) + ["94ad", "94ad", "9470", "9470"] + R608.char_words(txt)
+                out += [f"00:00:{draw(st.integers(1, 3)) + 3 * k:02d}:00\t" + " ".join(w), ""]
+            out += [f"00:00:{3 * len(rows) + 4:02d}:00\t94ad 94ad", ""]
+            return {"op": "add_doc", "fmt": "scc", "doc": "\n".join(out)}
         word = draw(st.sampled_from(["Left over", "Good morning", "Second cue", "abc"]))
         sec = draw(st.integers(1, 9))
         row = draw(st.integers(1, 15))
@@ -404,6 +416,20 @@ def machine(tier, hook):
             fmt = self.st.docs[i][0]
             self._do({"op": "read", "doc_i": i, "ctor": data.draw(ctor_strategy(fmt)),
                       "call": data.draw(call_strategy(fmt)), "pooled": data.draw(st.booleans())})
+
+        @precondition(lambda self: sum(1 for d in self.st.docs if d[0] == "scc") >= 2)
+        @rule(data=st.data())
+        def scc_reader_reads_two_documents(self, data):
+            """One SCCReader object reads two SCC documents in a row, the second one with any of
+            the read() options (a roll-up segment read with simulate_roll_up after a stream that
+            set the roll-up depth, say)."""
+            idx = [i for i, d in enumerate(self.st.docs) if d[0] == "scc"]
+            i = idx[data.draw(st.integers(0, len(idx) - 1))]
+            j = idx[data.draw(st.integers(0, len(idx) - 1))]
+            self._do({"op": "read", "doc_i": i, "ctor": {}, "call": {}, "pooled": True})
+            self._do({"op": "read", "doc_i": j, "ctor": {},
+                      "call": data.draw(st.sampled_from([{"simulate_roll_up": True}, {"simulate_roll_up": True},
+                                                         {"offset": 1}, {}])), "pooled": True})
 
         @precondition(lambda self: len(self.st.pool) > 0)
         @rule(data=st.data())
